@@ -43,7 +43,17 @@ const (
 
 // ScriptError is returned when the script raised an error (error(), a failed redis.call, a runtime error) or, from
 // Compile, when it has a syntax error.
-type ScriptError struct{ Msg string }
+//
+// Table reports that the error value was a table with a string err field (what a failed redis.call raises, or
+// error{err=...}): Redis replies with that message verbatim, whereas other error values get an "ERR " prefix.
+// Line is the line of the call that was executing when the error was raised (0 when unknown); Budget marks the
+// step-budget abort, which is a harness limit rather than something Redis would report.
+type ScriptError struct {
+	Msg    string
+	Table  bool
+	Line   int
+	Budget bool
+}
 
 func (e *ScriptError) Error() string { return e.Msg }
 
@@ -1239,9 +1249,13 @@ func (c *Chunk) Run(keys, argv []string, host Host) (result Value, err error) {
 			result = nil
 			switch e := r.(type) {
 			case *luaError:
-				err = &ScriptError{Msg: errorMessage(e.val)}
+				t, isTable := e.val.(*Table)
+				if isTable {
+					_, isTable = t.Get("err").(string)
+				}
+				err = &ScriptError{Msg: errorMessage(e.val), Table: isTable, Line: in.line}
 			case budgetError:
-				err = &ScriptError{Msg: "script exceeded the step budget"}
+				err = &ScriptError{Msg: "script exceeded the step budget", Budget: true}
 			case *UnsupportedError:
 				err = e
 			default:
@@ -2402,6 +2416,8 @@ func strFormat(in *interp, args []Value) []Value {
 // ---------------------------------------------------------------------------------------------------------------
 // redis
 
+// errTable builds the error value of the redis library. Like Redis' luaPushError, messages generated by the library
+// itself carry the generic "ERR" code; messages of failed commands come with their own code from the host.
 func errTable(msg string) *Table {
 	t := NewTable()
 	t.Set("err", msg)
@@ -2410,11 +2426,11 @@ func errTable(msg string) *Table {
 
 func replyTable(in *interp, args []Value, field, fname string) Value {
 	if len(args) != 1 {
-		return errTable("wrong number or type of arguments")
+		return errTable("ERR wrong number or type of arguments")
 	}
 	s, ok := args[0].(string)
 	if !ok {
-		return errTable("wrong number or type of arguments")
+		return errTable("ERR wrong number or type of arguments")
 	}
 	t := NewTable()
 	t.Set(field, s)
@@ -2440,12 +2456,12 @@ func redisCall(in *interp, args []Value, protected bool) []Value {
 	for i, a := range args {
 		s, ok := ToRedisArg(a)
 		if !ok {
-			reply = errTable("Lua redis lib command arguments must be strings or integers")
+			reply = errTable("ERR Lua redis lib command arguments must be strings or integers")
 		}
 		strs[i] = s
 	}
 	if len(args) == 0 {
-		reply = errTable("Please specify at least one argument for this redis lib call")
+		reply = errTable("ERR Please specify at least one argument for this redis lib call")
 	}
 	if reply == nil {
 		if in.host == nil {
